@@ -8,6 +8,7 @@ import (
 	"crypto/sha256"
 	"encoding/hex"
 	"fmt"
+	"net"
 	"net/http"
 	"net/textproto"
 	"net/url"
@@ -18,6 +19,7 @@ import (
 	"time"
 
 	"github.com/google/martian/v3"
+	"github.com/google/martian/v3/trafficshape"
 	"pgregory.net/rapid"
 
 	"verifharness/internal/kit"
@@ -72,6 +74,9 @@ type Case struct {
 	// same proxy (each with its own script). The property is per connection;
 	// whatever the proxy shares between connections must not leak across them.
 	Others []Sub `json:"others,omitempty"`
+	// Shaped: the proxy is served on a trafficshape.Listener without any shape
+	// configured; the relay must behave exactly as on a plain listener.
+	Shaped bool `json:"shaped,omitempty"`
 }
 
 // Sub is the script of one additional concurrent connection.
@@ -412,6 +417,7 @@ func genCase(t *rapid.T) Case {
 		}
 		c.Exchanges = append(c.Exchanges, e)
 	}
+	c.Shaped = rapid.IntRange(0, 4).Draw(t, "shaped") == 0
 	if rapid.IntRange(0, 3).Draw(t, "parallel") == 0 {
 		m := rapid.IntRange(1, 2).Draw(t, "others")
 		for k := 0; k < m; k++ {
@@ -529,7 +535,11 @@ func runOnce(c Case, T time.Duration) (v kit.Verdict) {
 	p := martian.NewProxy()
 	p.SetTimeout(60 * time.Second)
 	p.SetDial(dialer.Dial)
-	pr := netkit.Start(p, nil)
+	var wrap func(net.Listener) net.Listener
+	if c.Shaped {
+		wrap = func(l net.Listener) net.Listener { return trafficshape.NewListener(l) }
+	}
+	pr := netkit.Start(p, wrap)
 	defer pr.Stop(10 * time.Second)
 
 	all := make([][]got, len(subs))
@@ -808,6 +818,9 @@ func classes(c Case) []string {
 	var cl []string
 	if len(c.Others) > 0 {
 		cl = append(cl, "concurrent-connections")
+	}
+	if c.Shaped {
+		cl = append(cl, "traffic-shaped-listener")
 	}
 	if len(c.Exchanges) >= 2 {
 		cl = append(cl, "multi-exchange")
